@@ -52,6 +52,26 @@ KNOWN_DEFECT_refused_add_not_atomic = False  # repaired in /repo (fix: d52af37)
 # than the property states, so they stay switched off (observation recorded in DESIGN.md section 9).
 KNOWN_DEFECT_moveTo_leaves_stale_locator_entry = True
 
+# Round 4 (reported by an independent engineer, confirmed here; repairs proposed in /tmp/scratch/triage/<flag>.diff,
+# flags stay True until the repair is committed in /repo).  Same mini reactor:
+#  add_foreign_locator_bypasses_occupancy: core.add(fresh, core.spatialGrid[1, 0, 0].detachedCopy()) (or a locator
+#    of another HexGrid, or core.add(x) of an assembly x that was removed earlier and still carries the detached
+#    copy of its old cell) with that cell occupied -> accepted: two children at (1, 0), the occupant's
+#    childrenByLocator entry overwritten (locators compare by grid identity, the occupancy test runs before the
+#    locator is converted to the core grid).
+#  remove_of_non_member_corrupts_location_table: fresh.spatialLocator = core.spatialGrid[1, 0, 0];
+#    core.removeAssembly(fresh) -> ValueError (not a child) AFTER childrenByLocator.pop: the occupant of (1, 0) is
+#    still a child but getAssemblyWithStringLocation('002-001') returns None.
+#  swap_with_itself_loses_stationary_block: stationaryBlockFlags [GRID_PLATE]; fh.swapAssemblies(a, a) ->
+#    ValueError (list.remove(x): x not in list) after the grid plate was taken out: len(a) 3 -> 2 for good.
+#  pool_assigned_by_attribute_not_in_collection: r.excore.sfp = SpentFuelPool('sfp') -> 'sfp' not in r.excore
+#    (ExcoreCollection.__setattr__ tests `type(value) is ExcoreStructure`); with trackAssems on
+#    core.removeAssembly(a) then finds no pool: a is dropped but stays in assembliesByName / blocksByName.
+KNOWN_DEFECT_add_foreign_locator_bypasses_occupancy = True
+KNOWN_DEFECT_remove_of_non_member_corrupts_location_table = True
+KNOWN_DEFECT_swap_with_itself_loses_stationary_block = True
+KNOWN_DEFECT_pool_assigned_by_attribute_not_in_collection = True
+
 CELLS = [(0, 0), (1, 0), (0, 1), (2, -1)]
 TYPES = ("grid plate", "fuel", "plenum")
 # stationary blocks at the bottom (grid plate), at the top (plenum), in the middle (fuel), at bottom and top
@@ -202,6 +222,9 @@ class World:
         acts = []
         if level in ("full", "wide"):
             acts += [("swap", x, y) for x in core for y in core if x != y]
+            if core and not (KNOWN_DEFECT_swap_with_itself_loses_stationary_block and self.statIdx):
+                # the degenerate pair: an assembly swapped with itself stays what and where it is
+                acts += [("swap", core[-1], core[-1])]
             acts += [("cascade",) + p for p in itertools.permutations(core, 3)]
             if level == "full":
                 acts += [("cascade",) + p for p in itertools.permutations(core, 4)]
@@ -384,7 +407,7 @@ BOUNDS = ("full-core mini reactor, 4 occupied cells (centre, ring 2 x2, ring 3) 
           "[FUEL] (middle block)}")
 
 
-@harness("C14", bounds=BOUNDS + "; K=1 over the full action set (ordered swaps, all 3- and 4-cascades, cascades with None entries, discharge, remove, "
+@harness("C14", bounds=BOUNDS + "; K=1 over the full action set (ordered swaps, one assembly swapped with itself, all 3- and 4-cascades, cascades with None entries, discharge, remove, "
                                 "purge = removeAssembly(discharge=False)), or over the reduced / wide set for the instances that say so "
                                 "(top / middle / bottom+top stationary blocks, an assembly stored in the pool from the start); "
                                 "quick: one shared symbol for all grid-plate heights (no fork on the top-elevation "
@@ -454,13 +477,28 @@ def sequences_of_operations_keep_the_books(ctx, track, stat, K, level):
     w.check("after %s" % (done,), canary=ctx.canary)
 
 
-@harness("C14", bounds="as above; one assembly has its grid plate at another axial index: every swap / discharge "
-                       "involving it must be refused (ValueError) when grid plates are stationary, leaving everything "
+# (stationaryBlockFlags key of STAT, block types of the odd assemblies): the regular assemblies are TYPES
+ODD_LAYOUTS = {
+    "shifted": ("gridplate", ("fuel", "grid plate", "plenum")),      # [0] against [1]
+    "prefix": ("two", ("grid plate", "fuel", "fuel")),               # [0, 2] against [0]: fewer, common prefix equal
+    "nostationary": ("gridplate", ("fuel", "fuel", "plenum")),       # [0] against []
+    "superset": ("gridplate", ("grid plate", "grid plate", "plenum")),  # [0] against [0, 1]: more
+    "suffix": ("two", ("fuel", "fuel", "plenum")),                   # [0, 2] against [2]
+}
+
+
+@harness("C14", bounds="as above; the stationary blocks of one assembly in the core and of the fresh one sit at "
+                       "OTHER axial indices than those of the rest (instance: shifted to another index; fewer of "
+                       "them, the list of indices a prefix / a suffix of the regular one; none at all; more): every "
+                       "swap / discharge between the two layouts must be refused (ValueError), leaving everything "
                        "where it was; heights and densities symbolic", stubs=STUBS, qtimeout_ms=20000,
-         instances={"quick": [dict(track=True), dict(track=False)]})
-def mismatched_stationary_blocks_are_refused_consistently(ctx, track):
-    odd = ("fuel", "grid plate", "plenum")
-    w = World(ctx, track, "gridplate", types=[TYPES, odd, TYPES, TYPES, odd], sharedStatHeight=False)
+         instances={"quick": [dict(track=True), dict(track=False), dict(track=True, layout="prefix"),
+                              dict(track=False, layout="nostationary")],
+                    "thorough": [dict(track=t, layout=lay) for t in (True, False)
+                                 for lay in ("prefix", "nostationary", "superset", "suffix")]})
+def mismatched_stationary_blocks_are_refused_consistently(ctx, track, layout="shifted"):
+    stat, odd = ODD_LAYOUTS[layout]
+    w = World(ctx, track, stat, types=[TYPES, odd, TYPES, TYPES, odd], sharedStatHeight=False)
     acts = [("swap", 0, 1), ("swap", 1, 2), ("cascade", 0, 2, 1), ("discharge", 4, 0), ("swap", 0, 2)]
     act = ctx.choice("act", acts)
     involvesOdd = (act[0] == "discharge") or 1 in act[1:]
@@ -538,18 +576,42 @@ def swaps_in_a_third_core_rescale_only_what_is_cut(ctx):
                                 b.p.adjMgFlux[g] * sf, old["adj"][g] * old["sf"], scale=old["adj"][g] * old["sf"] + 1e-30)
 
 
+ADD_VIA = ("explicit", "own", "own detached", "detached", "other grid")
+
+
 @harness("C14", bounds="full-core mini reactor as above; adding the fresh assembly to an occupied cell (every cell, "
-                       "forked) must be refused and change nothing; then a legal discharge swap still works",
+                       "forked) must be refused and change nothing, however the location is named (forked): passed "
+                       "explicitly as a locator of the core grid, carried by the assembly itself (core.add(a)), as a "
+                       "detached copy (what an assembly removed earlier carries), or as a locator of another grid",
          stubs=STUBS, qtimeout_ms=20000)
 def add_to_an_occupied_location_is_refused_cleanly(ctx):
+    from armi.reactor import grids
     w = World(ctx, True, "none")
     c = ctx.choice("cell", CELLS)
+    vias = [v for v in ADD_VIA if v in ("explicit", "own") or not KNOWN_DEFECT_add_foreign_locator_bypasses_occupancy]
+    via = ctx.choice("via", vias)
+    if len(vias) < len(ADD_VIA):
+        ctx.note("KNOWN_DEFECT_add_foreign_locator_bypasses_occupancy: locators that do not belong to the core grid "
+                 "are not tried")
+    fresh, loc = w.asms[4], w.core.spatialGrid[c + (0,)]
     try:
-        w.core.add(w.asms[4], w.core.spatialGrid[c + (0,)])
+        if via == "explicit":
+            w.core.add(fresh, loc)
+        elif via == "own":
+            fresh.spatialLocator = loc
+            w.core.add(fresh)
+        elif via == "own detached":
+            fresh.spatialLocator = loc.detachedCopy()
+            w.core.add(fresh)
+        elif via == "detached":
+            w.core.add(fresh, loc.detachedCopy())
+        else:
+            other = grids.HexGrid.fromPitch(16.2, numRings=3, symmetry="full")
+            w.core.add(fresh, other[c + (0,)])
         refused, how = False, None
     except (ValueError, KeyError) as e:
         refused, how = True, type(e)
-    ctx.check("a second assembly is never accepted at an occupied location", refused)
+    ctx.check("a second assembly is never accepted at an occupied location (location named: %s)" % via, refused)
     if KNOWN_DEFECT_refused_add_not_atomic:
         ctx.note("KNOWN_DEFECT_refused_add_not_atomic: Core.add raises KeyError (not the documented ValueError) and "
                  "leaves the refused assembly in the core's child list; state obligations skipped")
@@ -557,7 +619,104 @@ def add_to_an_occupied_location_is_refused_cleanly(ctx):
             ctx.check("canary", NOT(AND(w.h[0][0] > 399, refused)))
         return
     ctx.check("... with the documented ValueError", how is ValueError)
-    w.check("after the refused add", canary=ctx.canary)
+    w.check("after the refused add (%s)" % via, canary=ctx.canary)
+
+
+@harness("C14", bounds="full-core mini reactor: 3 of 4 cells occupied + 1 fresh assembly + 1 assembly stored in the "
+                       "pool from the start; the fresh assembly carries the NUMBER (hence the name, and its blocks "
+                       "the block names) of another assembly (forked): one in the core / one discharged to the pool "
+                       "by removeAssembly just before / the one stored in the pool from the start; it is added to the "
+                       "free cell (location passed explicitly or carried by the assembly: forked); trackAssems per "
+                       "instance; heights and densities symbolic", stubs=STUBS, qtimeout_ms=20000,
+         instances={"quick": [dict(track=True), dict(track=False)]})
+def adding_a_namesake_of_a_live_assembly_is_refused(ctx, track):
+    """Names are the keys of two lookup tables that must find EVERY assembly and block of core and pool: an assembly
+    whose name is taken by a live one - in the core or in the pool - cannot be accepted (Core.add: RuntimeError);
+    the name of an assembly that was deleted (tracking off) is free again."""
+    w = World(ctx, track, "none", cells=CELLS[:3], nfresh=1, nstored=1)
+    fresh, free = w.asms[3], CELLS[3]
+    who = ctx.choice("namesake", ["in core", "discharged", "stored"])
+    own = ctx.choice("locationCarriedByTheAssembly", [False, True])
+    target = {"in core": 1, "discharged": 0, "stored": 4}[who]
+    if who == "discharged":
+        w.core.removeAssembly(w.asms[0])
+        w.m_remove(0)
+    fresh.renumber(w.asms[target].getNum())
+    ctx.check("set-up: the fresh assembly and its blocks carry the names of assembly %d" % target,
+              fresh.getName() == w.asms[target].getName() and
+              [b.getName() for b in fresh] == [b.getName() for b in w.asms[target]])
+    nameTaken = w.where[target] != GONE
+    loc = w.core.spatialGrid[free + (0,)]
+    try:
+        if own:
+            fresh.spatialLocator = loc
+            w.core.add(fresh)
+        else:
+            w.core.add(fresh, loc)
+        refused = False
+    except RuntimeError:
+        refused = True
+    if ctx.canary:
+        nameTaken = nameTaken and not (who == "stored" and own)
+    ctx.check("namesake of the assembly %s: refused iff that assembly is still in the core or in the pool" % who,
+              refused == nameTaken)
+    if not refused:
+        w.m_add(3, free)
+    w.check("after the %s add of a namesake of the assembly %s" % ("refused" if refused else "accepted", who))
+
+
+@harness("C14", bounds="full-core mini reactor as above (4 cells occupied, 1 fresh assembly, 1 assembly stored in the "
+                       "pool); Core.removeAssembly of an assembly that is NOT in the core (forked: the fresh one "
+                       "as made / the fresh one carrying the locator of an occupied cell, every cell / the stored "
+                       "one), discharge=True and False (forked), must be refused and change nothing",
+         stubs=STUBS, qtimeout_ms=20000, instances={"quick": [dict(track=True)], "thorough": [dict(track=False)]})
+def removing_an_assembly_that_is_not_in_the_core_is_refused_cleanly(ctx, track):
+    w = World(ctx, track, "none", nstored=1)
+    cases = [("fresh", None), ("stored", None)]
+    if not KNOWN_DEFECT_remove_of_non_member_corrupts_location_table:
+        cases += [("fresh at", c) for c in CELLS]
+    else:
+        ctx.note("KNOWN_DEFECT_remove_of_non_member_corrupts_location_table: a non-member that carries the locator "
+                 "of an occupied cell is not tried")
+    who, cell = ctx.choice("who", cases)
+    discharge = ctx.choice("discharge", [True, False])
+    x = w.asms[5] if who == "stored" else w.asms[4]
+    if cell is not None:
+        x.spatialLocator = w.core.spatialGrid[cell + (0,)]
+    try:
+        w.core.removeAssembly(x, discharge=discharge)
+        refused = False
+    except (ValueError, KeyError):
+        refused = True
+    ok = refused
+    if ctx.canary:
+        ok = AND(refused, NOT(AND(w.h[0][0] > 399, who == "stored")))
+    ctx.check("removing an assembly that is not in the core (%s) is refused" % who, ok)
+    w.check("after the refused removal of a non-member (%s, %s)" % (who, cell))
+
+
+@harness("C14", bounds="full-core mini reactor as above, trackAssems on; the spent fuel pool is registered with the "
+                       "reactor's ex-core collection by Reactor.add / by item assignment / by attribute assignment "
+                       "(forked; the documented dual access); then one removeAssembly (every assembly, forked): the "
+                       "assembly must arrive in that pool", stubs=STUBS, qtimeout_ms=20000)
+def the_pool_is_found_however_it_was_registered(ctx):
+    w = World(ctx, True, "none")
+    vias = ["Reactor.add", "item"] + ([] if KNOWN_DEFECT_pool_assigned_by_attribute_not_in_collection else ["attribute"])
+    if len(vias) < 3:
+        ctx.note("KNOWN_DEFECT_pool_assigned_by_attribute_not_in_collection: registration by attribute is not tried")
+    via = ctx.choice("registeredBy", vias)
+    if via != "Reactor.add":
+        del w.r.excore["sfp"]
+        if via == "item":
+            w.r.excore["sfp"] = w.sfp
+        else:
+            w.r.excore.sfp = w.sfp
+    ctx.check("the pool is found both ways (registered by %s)" % via,
+              w.r.excore.get("sfp") is w.sfp and w.r.excore.sfp is w.sfp)
+    x = ctx.choice("who", [0, 1, 2, 3])
+    w.core.removeAssembly(w.asms[x])
+    w.m_remove(x)
+    w.check("after removeAssembly(%d), pool registered by %s" % (x, via), canary=ctx.canary)
 
 
 @harness("C14", bounds="full-core mini reactor, 3 of 4 cells occupied; Assembly.moveTo to the empty cell for every "
